@@ -81,7 +81,7 @@ def solve_address(ctx, rng, desc, kind, w, prep_args):
 
 
 def run_rows(pid, spec, prefixes, ctxs=CTXS_DEFAULT, regs_fn=None, prep_kw=None, after=None, keyfn=None, itpos_fn=None,
-             solve_addr=0.0, fixed_fn=None):
+             solve_addr=0.0, fixed_fn=None, product_cap=None, pin_sp=False):
     from vf import lockstep, scen, machine as M
     from vf.ref.step import tables
     rng = rng_for(pid, 'rows', spec['seed'], spec['shard'])
@@ -119,14 +119,23 @@ def run_rows(pid, spec, prefixes, ctxs=CTXS_DEFAULT, regs_fn=None, prep_kw=None,
             total = 1
             for c in cands:
                 total *= len(c)
-            cap = max(40, spec['per_row'] // 2)
+            cap = product_cap or max(40, spec['per_row'] // 2)
             combos = list(itertools.product(*cands)) if total <= cap else [tuple(rng.choice(c) for c in cands) for _ in range(cap)]
+            regletters = [ch for ch in row.fields if len(row.fields[ch]) == 4 and ch in 'ndmstauhl']
             for combo in combos:
                 w = lockstep.gen_word(tabs[kind], row, rng, tries=1, fixed=dict(zip(letters, combo)))
                 if w is None:
                     continue
                 ls.bump('field_product_words')
                 yield kind, row, w
+                if pin_sp and total <= cap:
+                    # the complete product once more with each register operand in turn being the SP (rules of the kind
+                    # "Rd == SP allows LSL #0..3 only" sit on a register number AND an exact shift)
+                    for ch in regletters:
+                        w = lockstep.gen_word(tabs[kind], row, rng, tries=1, fixed=dict(zip(letters, combo), **{ch: 13}))
+                        if w is not None:
+                            ls.bump('field_product_words_with_sp')
+                            yield kind, row, w
         # words next to an alias / special-case encoding of another row (all rows of the family, a share per shard)
         wanted = {}
         for kind, row in rows:
